@@ -87,7 +87,7 @@ def c05(tier, seed):
     c.rule = "MC: should_notify as coded vs vring_need_event for every (avail_idx, avail_event, last-checked) modulo 8, both flag values; negative configuration (non-wrap-aware compare) must yield a counterexample; traces: should_notify / set_dev_notify / used_event observed in random histories"
     c.assumptions = VQ_ASSUME
     mc(c, ["VQ_n2_notify_flag", "VQ_n2_notify_ev"], tier, negative=["VQ_bug_naive_event_compare", "VQ_bug_no_rearm"])
-    vq_family(c, tier, seed + 404, ["random"])
+    vq_family(c, tier, seed + 404, ["notify", "random"])
     return c.finish()
 
 
